@@ -2023,9 +2023,7 @@ static double eval_double(Node *node) {
   case ND_COMMA:
     return eval_double(node->rhs);
   case ND_CAST:
-    if (is_flonum(node->lhs->ty))
-      return eval_double(node->lhs);
-    return eval(node->lhs);
+    return eval_double(node->lhs);
   case ND_NUM:
     return node->fval;
   }
